@@ -39,6 +39,9 @@ TYPES = {"usize": "N", "TokenKind": "TokenKind", "bool": "bool", "str": "text", 
 class PGen(Gen):
     RET, EARLY, UNREACH, LOOP, FUEL = "pret", "pearly", "p_unreachable", "p_loop", "p_loop_fuel"
     SRC = SRC
+    # canonical names of the private functions in call-graph discovery order (t_lexer.Gen.canonicalize)
+    CANON_PRIVATE = ["next_token", "process_if", "next_not_trivia", "eat_until_else_or_endif", "error", "process_else",
+                     "process_endif", "process_define"]
 
     def __init__(self, repo):
         tt = t_tokens.parse(repo)
@@ -78,6 +81,7 @@ class PGen(Gen):
             if en in TYPES or not vs or len(set(vs)) != len(vs):
                 raise TranslateError("%s: bad enum %s" % (SRC, en))
         self.tmp = 0
+        self.canonicalize()
 
     def fail(self, line, msg):
         raise TranslateError("%s:%d: %s" % (SRC, line or self.cur_line, msg))
@@ -164,7 +168,7 @@ class PGen(Gen):
                 self.fail(line, "self.%s expects %d arguments" % (m, len(f["params"])))
             # a string literal is a Coq string exactly where the parameter is `impl Into<EcoString>` (a message)
             c2 = dict(ctx, str_as="string") if any(t == "implInto<EcoString>" for _, t in f["params"]) else ctx
-            return self.lift(args, c2, lambda a: ("m", "call (gp_%s%s)" % (m, "".join(" (%s)" % x for x in a))))
+            return self.lift(args, c2, lambda a: ("m", "call (gp_%s%s)" % (self.cn(m), "".join(" (%s)" % x for x in a))))
         if recv[0] == "field" and self.is_self(recv[1]):
             if not ctx["self_ok"]:
                 self.fail(line, "self used in a pure context")
@@ -259,6 +263,8 @@ class PGen(Gen):
         params = [(self.var(p), self.ty(t, line)) for p, t in f["params"]]
         ps = "".join(" (%s : %s)" % p for p in params)
         ret = self.ty(f["ret"], line) if f["ret"] else "unit"
+        if f["self"] == "val":
+            self.fail(line, "`self` by value is outside the subset")
         ctx = {"locals": {p for p, _ in f["params"]}, "muts": set(), "self_ok": f["self"] is not None,
                "can_return": f["self"] is not None, "loop": None}
         if f["self"] is None:
@@ -267,9 +273,9 @@ class PGen(Gen):
             k, t = self.block_value(f["body"], ctx)
             if k != "p":
                 self.fail(line, "constructor %s is not a pure expression" % name)
-            return "Definition gp_%s%s : %s :=\n  %s." % (name, ps, ret, t)
+            return "Definition gp_%s%s : %s :=\n  %s." % (self.cn(name), ps, ret, t)
         body = self.stmts(f["body"][1], 0, ctx, ("value",))
-        return "Definition gp_%s%s : PF %s :=\n  pfn_body (%s)." % (name, ps, ret, body)
+        return "Definition gp_%s%s : PF %s :=\n  pfn_body (%s)." % (self.cn(name), ps, ret, body)
 
     def enum_defs(self):
         out = []
@@ -295,10 +301,10 @@ def translate(repo):
     names = g.order()
     for n in names:
         f = g.by_name[n]
-        o.append("(* fn %s  [impl %s] *)" % (n, f["impl"]))
+        o.append("(* fn %s  [impl %s] *)" % (g.cn(n), f["impl"]))
         o.append(pretty(g.function(f)))
         o.append("")
-    o.append("Definition gen_prep_functions : list string :=\n  [ %s ]%%string." % "; ".join('"%s"' % n for n in names))
+    o.append("Definition gen_prep_functions : list string :=\n  [ %s ]%%string." % "; ".join('"%s"' % g.cn(n) for n in names))
     return {"GenPrep.v": "\n".join(o) + "\n"}
 
 
